@@ -668,7 +668,7 @@ Proof.
   remember (5 * List.length (kw :: nm :: lb :: value_toks tyo s ++ [rb; eof]) + 4)%nat as F eqn:EF.
   destruct F as [|[|F]]; [cbn [List.length] in EF; lia|cbn [List.length] in EF; lia|].
   rewrite (parse_tops_text (S F) _ (kw :: nm :: lb :: value_toks tyo s ++ [rb; eof]) _ _ Hk (parse_text_plain (S F) kw nm lb tyo s rb [eof] Hn Hl Hv Hs Hr)).
-  cbn [adv]. rewrite (parse_tops_eof F _ [eof] He). cbn. reflexivity.
+  cbn [adv]. rewrite (parse_tops_eof F _ [eof] He). unfold checked_texts, checked_tops. destruct env_errors; cbn; reflexivity.
 Qed.
 
 End PARSE.
@@ -1073,8 +1073,8 @@ Proof.
   destruct (Parser.parse_tops autovars switches ee parse_format (5 * List.length ts + 4) {| pconsts := []; ph := hst0; ptops := []; ptexts := [] |} ts)
     as [st| | |] eqn:P; try discriminate H.
   destruct (parse_tops_ok _ _ _ _ P) as [A B]; [split; constructor|].
-  destruct (dup_text [] (htexts (ph st) ++ ptexts st)); [discriminate H|].
-  destruct (dup_mov [] (ptops st ++ hmovs (ph st))); [discriminate H|]. inversion H; subst. cbn [texts].
+  destruct (dup_text [] _); [discriminate H|].
+  destruct (dup_mov [] _); [discriminate H|]. inversion H; subst. cbn [texts].
   apply Forall_app. split.
   - eapply Forall_impl; [|exact A]. intros x [s E]. left. rewrite E. apply terminate_ends.
   - eapply Forall_impl; [|exact B]. intros x [[s E]|E]; [left; rewrite E; apply terminate_ends|right; exact E].
